@@ -7,12 +7,16 @@ from harness import route_common as RC
 
 LEAN_TARGETS = ["PoorProofs.Props.C02"]
 AUDIT_IMPORTS = ["PoorProofs.Props.C02"]
-LEAN_FILES = ["PoorModel/Regex.lean", "PoorModel/Route.lean", "PoorProofs/Lemmas/Regex.lean", "PoorProofs/Props/C02.lean"]
+LEAN_FILES = ["PoorModel/Regex.lean", "PoorModel/Route.lean", "PoorProofs/Lemmas/Regex.lean", "PoorProofs/Props/C02.lean",
+              "PoorProofs/Props/C19.lean"]
 THEOREMS = ["Poor.Regex.ms_sound", "Poor.Props.C02.source_facts", "Poor.Props.C02.select_static_first",
             "Poor.Props.C02.select_wrong_method", "Poor.Props.C02.selectRegex_first_match",
             "Poor.Props.C02.selectRegex_skips", "Poor.Props.C02.select_fallbacks",
             "Poor.Props.C02.pattern_args_positional", "Poor.Props.C02.rule_anchored",
-            "Poor.Props.C02.inline_re_verbatim", "Poor.Props.C02.C20_route"]
+            "Poor.Props.C02.inline_re_verbatim", "Poor.Props.C02.C20_route",
+            "Poor.Props.C02.C02_reregister_keeps_place", "Poor.Props.C02.C02_new_pattern_last",
+            "Poor.Props.C02.C02_registration_order", "Poor.Props.C02.C02_latest_registration",
+            "Poor.Props.C02.C02_select_registered"]
 TRUSTED_BASE = ["model Poor.Regex: fragment of Python re (checked differentially against CPython on every run); "
                 "patterns outside the fragment are answered `unsupported` and counted",
                 "model Poor.Route hand-written from wsgi.py:34,149-173,784-898,1023-1124",
